@@ -13,6 +13,13 @@ depth d is replayed on a fresh Version(start) next to the model (three component
 empty revision omitted; valid -> the state is the parse of the recomposition, invalid -> ValueError and
 str/epoch/upstream_version/debian_revision exactly as before).  A history that reaches a don't-care
 string or a violation is not extended.
+
+Numeric boundaries (the syntax limits neither the length nor the value of a digit run): the digit runs of
+versyntax.digit_runs() - 2^15, 2^16, 10^9, 2^31, 2^32, 2^63, 2^64, 10^19, 10^20 and their predecessors, a 40-digit run,
+long runs of small value - bare, with one and with ten leading zeros, as epoch, as upstream version, as a component of
+it, as revision (12 templates) go through the acceptance oracle; the same runs, as str and (value permitting) as int,
+are assigned to epoch, upstream_version and debian_revision of two start versions (all histories of length 1; length 2
+over the bare runs followed by another run or an ordinary step), checked by the assignment model.
 """
 import itertools
 
@@ -26,7 +33,9 @@ RULE = ("Engine B: states = strings visited in the trie walk (every string of le
         "history that reaches it, rebuilt by replay on a fresh object), transitions = setattr steps applied as the last "
         "step of a history, traces = histories replayed from a fresh object; non-trivial = accepted strings that have an "
         "epoch or a revision, rejected strings made of version-alphabet characters only (rejected for structure), and "
-        "histories whose last assignment is applied to an object that has already rolled back a rejected one")
+        "histories whose last assignment is applied to an object that has already rolled back a rejected one; "
+        "numeric boundaries: one state / transition / trace per (template, digit run) and per assignment history as "
+        "above; such a history is also non-trivial when it assigns a digit run whose value is >= 2**31")
 BUDGET = {"quick": 240, "thorough": 3000}
 
 SYMBOLS = ["0", "1", "a", ".", "+", "~", "-", ":", " ", "\n", "_", "é", "٣"]
@@ -34,6 +43,8 @@ STARTS = ["1.0", "1:2.0-3", "0:a-b-c", "1.0-0"]
 ATTRS = ["epoch", "upstream_version", "debian_revision", "debian_version", "full_version"]
 VALUES = [None, "", "1", "2.0", "a-b", "x:y", " ", "é", "1\n"]
 CROSS_ALPHABET = "01a.+~-:_"
+NUM_STARTS = ["1.0", "1:2.0-3"]
+NUM_ATTRS = ["epoch", "upstream_version", "debian_revision"]
 
 selfcheck_result = {}
 
@@ -48,7 +59,17 @@ def depth_for(tier):
 
 def bounds(tier):
     return {"acceptance": {"alphabet": SYMBOLS, "max_length": n_for(tier)},
-            "assignments": {"starts": STARTS, "attributes": ATTRS, "values": VALUES, "depth": depth_for(tier)}}
+            "assignments": {"starts": STARTS, "attributes": ATTRS, "values": VALUES, "depth": depth_for(tier)},
+            "numeric_boundaries": {
+                "digit_runs": versyntax.digit_runs(tier) if tier == "quick" else
+                "%d runs: 2^k-1, 2^k, 2^k+1 (k = 7..256), 10^k-1, 10^k (k = 4..309), 40-, 100- and 1000-digit runs, long "
+                "runs of small value" % len(versyntax.digit_runs(tier)),
+                "leading_zeros": [0, 1, 10],
+                "templates": [t for _p, t in versyntax.DIGIT_RUN_TEMPLATES],
+                "assignment_starts": NUM_STARTS, "assignment_attributes": NUM_ATTRS,
+                "assignment_values": "every run and zero-padded run as str, every bare run also as int",
+                "assignment_depth": "1 over all values; 2 = (attribute, bare run as str) followed by one of those or by "
+                                    "any of the %d ordinary steps" % (len(ATTRS) * len(VALUES))}}
 
 
 def assumptions():
@@ -60,6 +81,13 @@ def assumptions():
             "assigning full_version is modelled as re-constructing from str(value); assigning None to epoch or revision "
             "removes that part; an empty revision is omitted on recomposition; upstream_version None cannot be recomposed "
             "and must be rejected with ValueError",
+            "numeric boundaries: the grammar knows digits, not numbers - a digit run of any length and value is valid as "
+            "epoch, in the upstream version and in the revision (Policy 5.6.12 gives no limit; dpkg itself refuses epochs "
+            "above INT_MAX, which is a limit of dpkg, so this family is not cross-checked against dpkg); runs stay below 4300 "
+            "digits, where Python's own int <-> str conversion stops; their violations carry the prefix numeric/ so that a "
+            "magnitude or length guard is told from a character-class slip",
+            "component assignment takes any value through str() (lib/debian/debian_support.py __setattr__), so an int n is "
+            "the run str(n); the unchanged library accepts v.epoch = 2147483648, v.upstream_version = 2**64 and so on",
             "the seed rotates the non-zero digit, the letter, the blank, the foreign ASCII character and the non-ASCII "
             "letter and digit among characters of the same class; '0', newline and the punctuation are never rotated"]
 
@@ -111,6 +139,10 @@ def _units(tier, seed):
     out += [{"k": "assign", "len": 1, "start": si, "first": None} for si in range(len(STARTS))]
     for length in range(2, depth_for(tier) + 1):
         out += [{"k": "assign", "len": length, "start": si, "first": oi} for si in range(len(STARTS)) for oi in range(nops)]
+    out += [{"k": "numeric", "template": i} for i in range(len(versyntax.DIGIT_RUN_TEMPLATES))]
+    out += [{"k": "numeric-assign", "len": 1, "start": si, "attr": None} for si in range(len(NUM_STARTS))]
+    out += [{"k": "numeric-assign", "len": 2, "start": si, "attr": ai} for si in range(len(NUM_STARTS))
+            for ai in range(len(NUM_ATTRS))]
     return out
 
 
@@ -158,6 +190,10 @@ def unit_cost(u, tier):
         return len(SYMBOLS) ** max(0, u["len"] - 2)
     if u["k"] == "sweep":
         return 64 * 100
+    if u["k"] == "numeric":
+        return 60
+    if u["k"] == "numeric-assign":
+        return 3 * (400 if u["len"] == 1 else 2000)
     return 3 * (len(ATTRS) * len(VALUES)) ** max(0, u["len"] - 1)
 
 
@@ -239,6 +275,8 @@ def model_step(state, attr, x):
 
 
 def value_class(x):
+    if isinstance(x, int) and not isinstance(x, bool):
+        return "int"
     return {None: "None", "": "empty"}.get(x) or ("newline" if "\n" in x else "blank" if x.strip() == "" else
                                                    "nonascii" if ord(max(x)) > 127 else
                                                    "colon" if ":" in x else "hyphen" if "-" in x else "plain")
@@ -303,7 +341,79 @@ def run_unit(u, tier, seed):
         return unit_accept(part, u, seed)
     if u["k"] == "sweep":
         return unit_sweep(part, u, seed)
+    if u["k"] == "numeric":
+        return unit_numeric(part, u, tier, seed)
+    if u["k"] == "numeric-assign":
+        return unit_numeric_assign(part, u, tier, seed)
     return unit_assign(part, u, seed)
+
+
+def _numeric(bad):
+    return [("numeric/" + sig, exp, obs) for sig, exp, obs in bad]
+
+
+def unit_numeric(part, u, tier, seed):
+    pos, template = versyntax.DIGIT_RUN_TEMPLATES[u["template"]]
+    template = tr(template, seed)
+    part.max_depth = 1
+    for run in versyntax.digit_runs(tier):
+        for z, padded in enumerate(versyntax.zero_padded(run)):
+            s = versyntax.digit_run_string(template, padded)
+            assert versyntax.valid(s) is True, s
+            bad, cls, nontrivial = run_string(s)
+            part.states += 1
+            part.transitions += 1
+            part.traces += 1
+            part.evaluations += 1
+            part.outcomes["numeric/%s/%s" % (pos, cls)] += 1
+            part.nontrivial += nontrivial
+            part.extra["numeric boundary strings"] += 1
+            case = {"k": "string", "s": s, "family": "numeric"}
+            for sig, exp, obs in _numeric(bad):
+                part.violation(sig, case, exp, obs, rank=len(s))
+    part.sample(case)
+    return part
+
+
+def numeric_values(tier, bare_only=False):
+    out = []
+    for run in versyntax.digit_runs(tier):
+        out.append(run)
+        if not bare_only:
+            out += versyntax.zero_padded(run)[1:]
+            if str(int(run)) == run:
+                out.append(int(run))
+    return out
+
+
+def unit_numeric_assign(part, u, tier, seed):
+    start = tr(NUM_STARTS[u["start"]], seed)
+    part.max_depth = u["len"]
+    if u["len"] == 1:
+        hists = [[(a, x)] for a in NUM_ATTRS for x in numeric_values(tier)]
+    else:
+        firsts = [(NUM_ATTRS[u["attr"]], x) for x in numeric_values(tier, bare_only=True)]
+        seconds = ([(a, x) for a in NUM_ATTRS for x in numeric_values(tier, bare_only=True)] +
+                   [(a, tr(x, seed)) for a in ATTRS for x in VALUES])
+        hists = [[f, g] for f in firsts for g in seconds]
+    for h in hists:
+        idx, status, bad, rolled = run_history(start, h)
+        if idx < len(h) - 1:
+            continue                    # the first step is a violation: reported by the history of length 1
+        part.states += 1
+        part.transitions += 1
+        part.traces += 1
+        part.evaluations += 1
+        attr, x = h[-1]
+        part.outcomes["numeric-assign/%s/%s/%s" % (attr, value_class(x), status)] += 1
+        part.extra["numeric boundary histories"] += 1
+        case = {"k": "history", "start": start, "ops": [list(op) for op in h], "family": "numeric"}
+        if rolled or any(str(y).isdigit() and int(str(y)) >= 2 ** 31 for _a, y in h if y is not None):
+            part.nontrivial += 1
+        for sig, exp, obs in _numeric(bad):
+            part.violation(sig, case, exp, obs, rank=sum(len(str(y)) for _a, y in h))
+    part.sample(case)
+    return part
 
 
 def unit_accept(part, u, seed):
@@ -383,9 +493,10 @@ def unit_assign(part, u, seed):
 
 
 def replay(case):
+    wrap = _numeric if case.get("family") == "numeric" else list
     if case["k"] == "string":
-        return run_string(case["s"])[0]
-    return run_history(case["start"], [tuple(op) for op in case["ops"]])[2]
+        return wrap(run_string(case["s"])[0])
+    return wrap(run_history(case["start"], [tuple(op) for op in case["ops"]])[2])
 
 
 def repro_py(case):
